@@ -70,8 +70,18 @@ func checkIssuedLeaf(r *kernel.Run, where string, b *types.CertificateBundle, ro
 }
 
 // C04: honest enrollment always completes with correctly bound credentials.
+type c04Skip struct{}
+
 func propC04(r *kernel.Run) {
 	tp := r.Tape
+	defer func() {
+		if p := recover(); p != nil {
+			if _, ok := p.(c04Skip); ok {
+				return // a configuration in which no liveness is expected ended early (counted as a probe)
+			}
+			panic(p)
+		}
+	}()
 	// the first 4*3*2*2 runs cover every cell of flow x back end x server wrapper x node wrapper; later runs draw cells from the tape
 	cell := r.Index
 	if cell >= 48 {
@@ -105,10 +115,31 @@ func propC04(r *kernel.Run) {
 	var state, params *structpb.Struct
 	state = mkStruct(r, stKind)
 	params = mkStruct(r, tp.Draw(4))
+	if tp.Draw(6) == 0 {
+		// applications put what they like into state and params: kilobytes of it
+		params = bigStruct(r, []int{3000, 5000, 9000, 24000, 70000}[tp.Draw(5)])
+		r.Count("cfg.large_application_params", 1)
+	}
+	if tp.Draw(8) == 0 {
+		state = bigStruct(r, []int{5000, 24000, 70000}[tp.Draw(3)])
+		r.Count("cfg.large_application_state", 1)
+	}
 	desc := fmt.Sprintf("flow=%s backend=%s serverWrapper=%v nodeWrapper=%v stateKind=%d", flow, backend, srvSW, nodeSW, stKind)
 	r.Count("cfg.flow."+flow, 1)
 	r.Count("cfg.backend."+backend, 1)
+	// server-side fault: the application's random source short-reads. The server may refuse to work with it (it does);
+	// whatever it does hand out must not rest on a degenerate key
+	weakRand := r.Index >= 48 && tp.Draw(12) == 0 // (not in the runs that enumerate the cells)
+	var weakOpt []nodeenrollment.Option
+	if weakRand {
+		weakOpt = append(weakOpt, nodeenrollment.WithRandomReader(&shortReader{max: tp.Range(1, 31)}))
+		r.Count("fault.short_reads_from_random_source", 1)
+	}
 	fail := func(oracle, sig, format string, a ...any) {
+		if weakRand && (oracle == "enroll" || oracle == "honest-enrollment-completes") {
+			r.Count("probe.refused_to_work_with_short_reading_random_source", 1)
+			panic(c04Skip{})
+		}
 		r.Violate(oracle, sig, desc+": "+format, a...)
 	}
 
@@ -155,10 +186,10 @@ func propC04(r *kernel.Run) {
 	nodePkix := creds.CertificatePublicKeyPkix
 	kid := keyID(nodePkix)
 
-	fetchOpts := srv.Opts()
+	fetchOpts := srv.Opts(weakOpt...)
 	switch flow {
 	case "operator":
-		aopts := srv.Opts()
+		aopts := srv.Opts(weakOpt...)
 		if state != nil {
 			aopts = append(aopts, nodeenrollment.WithState(state))
 		}
@@ -167,7 +198,7 @@ func propC04(r *kernel.Run) {
 		}
 	case "wrapper":
 		srv.RW = regW
-		fetchOpts = srv.Opts()
+		fetchOpts = srv.Opts(weakOpt...)
 		if state != nil {
 			fetchOpts = append(fetchOpts, nodeenrollment.WithState(state))
 		}
@@ -186,7 +217,7 @@ func propC04(r *kernel.Run) {
 		if tp.Draw(2) == 0 {
 			// the server may have a registration wrapper of its own (another KMS than the edge's)
 			srv.RW = newAead(r, "server-own-registration-wrapper")
-			fetchOpts = srv.Opts()
+			fetchOpts = srv.Opts(weakOpt...)
 			r.Count("cfg.rewrapped_with_server_own_registration_wrapper", 1)
 		}
 		if state != nil {
@@ -272,6 +303,9 @@ func propC04(r *kernel.Run) {
 	}
 	if len(rec.CertificateBundles) != 2 || !proto.Equal(rec.CertificateBundles[0], inner.CertificateBundles[0]) || !proto.Equal(rec.CertificateBundles[1], inner.CertificateBundles[1]) {
 		fail("record", "record-chains-differ-from-response", "")
+	}
+	if k := rec.ServerEncryptionPrivateKeyBytes; len(k) >= 16 && bytes.Equal(k[len(k)-16:], make([]byte, 16)) {
+		r.Violate("response-bound", "server-key-degenerate", "%s: the server's encryption private key for this node is %x - not 32 bytes from the random source, so others can open the response", desc, k)
 	}
 	if !bytes.Equal(x25519PubOf(rec.ServerEncryptionPrivateKeyBytes), resp.ServerEncryptionPublicKeyBytes) {
 		fail("record", "record-server-key-differs-from-response", "")
